@@ -8,6 +8,8 @@ disabled open_run creates no 'interruptions' descriptor; the RunStop counts them
 calls record_interruption exactly once per open run (structural obligation on the call sites).
 """
 import ast
+import itertools
+import os
 
 from .lib import *
 from .bundler_lib import *
@@ -36,10 +38,41 @@ def open_run(I):
             ok and env.emitted[0][1]["uid"] == uid and b.run_is_open is True, {"replay": "bundler.rewind"})
 
 
-@task("record_interruption", PROP, functions=[f"{Q}.record_interruption", f"{Q}.rewind", f"{Q}.close_run"],
-      expect=[f"{Q}.record_interruption#ensures[exactly one interruptions event with the stream's next number when recording]",
-              f"{Q}.record_interruption#ensures[nothing emitted when recording is disabled]",
-              f"{Q}.close_run#ensures[RunStop counts the interruption records]"])
+REC_NEXT = f"{Q}.record_interruption#ensures[exactly one interruptions event with the stream's next number when recording]"
+REC_OFF = f"{Q}.record_interruption#ensures[nothing emitted when recording is disabled]"
+REC_STOP = f"{Q}.close_run#ensures[RunStop counts the interruption records]"
+FRAME = f"{Q}#frame[the 'interruptions' stream stays registered as never replayed while other never-replayed streams (monitors, flyers) are added]"
+
+
+def _never_replayed_op(I, w, b, op):
+    """run the real method that registers another never-replayed stream on the opened bundler"""
+    w.stubs[(MB, "check_supports")] = native(lambda I_, a, k: a[0])
+    w.stubs[(MB, "maybe_await")] = native(lambda I_, a, k: Ready(a[0]))
+    w.stubs[(MB, "maybe_update_hints")] = native(lambda I_, a, k: None)
+    w.stubs["asyncio.gather"] = lambda I_, a, k: Ready([run_coro(I_, c) if isinstance(c, GenObj) else c for c in a])
+    w.stubs["itertools.combinations"] = lambda I_, a, k: list(itertools.combinations(list(a[0]), a[1]))      # (concrete list of pairs)
+    if op == "monitor":
+        sig = Opaque("sig", {"token": "dev", "attrs": {"name": "sig", "hints": {}}, "truth": True,
+                             "isinstance": {"Subscribable": True, "Readable": True, "Configurable": False}, "isinstance_default": False, "hasattr": {"hints": False},
+                             "methods": {"subscribe": lambda I_, o, a, k: None, "clear_sub": lambda I_, o, a, k: None,
+                                         "describe": lambda I_, o, a, k: {"sig": {"dtype": "number", "shape": [], "source": "s"}}}})
+        r = call_async(I, I.getattr(b, "monitor"), MsgVal("monitor", sig, (), {"name": "mon"}, None))
+    elif op == "describe_collect":
+        # a classic flyer (describe_collect names its streams itself): its streams are described at the first collect
+        fly = Opaque("fly", {"token": "dev", "attrs": {"name": "fly", "hints": {}}, "truth": True, "isinstance_default": False,
+                             "isinstance": {"Collectable": True, "Flyable": True, "Configurable": False}, "hasattr": {"hints": False},
+                             "methods": {"describe_collect": lambda I_, o, a, k: {"flystream": {"fx": {"dtype": "number", "shape": [], "source": "fly"}}},
+                                         "read_configuration": lambda I_, o, a, k: {}, "describe_configuration": lambda I_, o, a, k: {}}})
+        r = call_async(I, I.getattr(b, "_describe_collect"), fly)
+    else:
+        return
+    if r[0] != "ok":
+        raise EngineError(f"{op} failed in harness: {r[1]!r} {getattr(r[1], 'attrs', None)}")
+
+
+@task("record_interruption", PROP, functions=[f"{Q}.record_interruption", f"{Q}.rewind", f"{Q}.close_run", f"{Q}.monitor", f"{Q}._describe_collect",
+                                              f"{Q}._prepare_stream", f"{Q}._ensure_cached"],
+      expect=[REC_NEXT, REC_OFF, REC_STOP, FRAME])
 def record_interruption(I):
     w = I.w
     env = Env(I)
@@ -48,34 +81,38 @@ def record_interruption(I):
     if not rec:
         env.emitted.clear()
         call_method(I, b, "record_interruption", "pause")
-        w.check(f"{Q}.record_interruption#ensures[nothing emitted when recording is disabled]",
-                len(env.emitted) == 0 and "interruptions" not in b._sequence_counters, {"replay": "bundler.rewind"})
+        w.check(REC_OFF, len(env.emitted) == 0 and "interruptions" not in b._sequence_counters, {"replay": "bundler.rewind"})
         return
     desc = [d for n, d in env.emitted if n == "descriptor"][0]
-    # arbitrary state: k records so far, some checkpoint in the past
+    # what happened in the run before: nothing / a monitor was started / a classic flyer was described (both add a never-replayed stream)
+    op = w.choose(["nothing", "monitor", "describe_collect"], "before")
+    _never_replayed_op(I, w, b, op)
+    info = {"replay": "bundler.interruptions", "before": op}
+    w.check(FRAME, "interruptions" in b._unreplayed_streams, info)
+    # arbitrary state: n - 1 records so far, some checkpoint in the past (or none since the stream was made)
     n = w.int("next_interruptions")
     c = w.int("snap_interruptions")
     w.add(And(n >= 1, c >= 1, c <= n))
     b._sequence_counters["interruptions"] = n
     has_snap = w.choose([True, False], "snapshot holds the stream")
+    info["checkpoint"] = has_snap
     if has_snap:
         b._sequence_counters_copy["interruptions"] = c
     else:
         b._sequence_counters_copy.pop("interruptions", None)
     env.emitted.clear()
-    call_method(I, b, "record_interruption", "pause")
+    r1 = catch(I, I.getattr(b, "record_interruption"), "pause")
     call_method(I, b, "rewind")                           # resume: the record must not be renumbered
-    call_method(I, b, "record_interruption", "resume")
+    r2 = catch(I, I.getattr(b, "record_interruption"), "resume")
     evs = events(env)
-    ok = len(evs) == 2 and len(env.emitted) == 2 and all(e["descriptor"] == desc["uid"] for e in evs)
-    w.check(f"{Q}.record_interruption#ensures[exactly one interruptions event with the stream's next number when recording]",
-            And(ok, *([Eq(evs[0]["seq_num"], n), Eq(evs[1]["seq_num"], n + 1), evs[0]["data"] == {"interruption": "pause"},
-                       evs[1]["data"] == {"interruption": "resume"}] if ok else [False])), {"replay": "bundler.rewind"})
+    ok = r1[0] == r2[0] == "ok" and len(evs) == 2 and len(env.emitted) == 2 and all(e["descriptor"] == desc["uid"] for e in evs)
+    w.check(REC_NEXT, And(ok, *([Eq(evs[0]["seq_num"], n), Eq(evs[1]["seq_num"], n + 1), evs[0]["data"] == {"interruption": "pause"},
+                                 evs[1]["data"] == {"interruption": "resume"}] if ok else [False])), info)
     env.emitted.clear()
     r = call_async(I, I.getattr(b, "close_run"), MsgVal("close_run", None, (), {}, None))
     stops = [d for nm, d in env.emitted if nm == "stop"]
-    w.check(f"{Q}.close_run#ensures[RunStop counts the interruption records]",
-            And(r[0] == "ok" and len(stops) == 1, Eq(stops[0]["num_events"]["interruptions"], n + 1) if stops else False), {"replay": "bundler.rewind"})
+    cnt = stops[0]["num_events"].get("interruptions") if stops else None
+    w.check(REC_STOP, And(r[0] == "ok" and len(stops) == 1 and cnt is not None, Eq(cnt, n + 1) if cnt is not None else False), info)
 
 
 @task("call_sites", PROP, functions=[f"{RE}._request_pause_coro", f"{RE}.resume", f"{RE}._start_suspender"],
@@ -101,3 +138,57 @@ def call_sites(I):
             good = ast.unparse(hits[0].args[0]).replace("'", '"') == label
         ok = ok and good
     w.check(f"{RE}#ensures[pause, resume and suspension each record one interruption per open run]", ok)
+
+
+# ---------------------------------------------------------------------------------------------------------------------------------
+# T2: the real RunEngine (request_pause / _request_pause_coro, _pause, _checkpoint, resume, request_suspend, _start_suspender, _run,
+# _open_run / _close_run) executed symbolically under the asyncio model with an arbitrary plan and an environment that requests immediate and
+# deferred pauses and suspensions at every step of the loop; the clause is replay/c40_clause.py, the ghost monitor contracts/run_mon5.py
+from .t2 import *                                   # noqa: E402
+from .run_mon5 import c40_checks, R_MISSING, R_EXTRA, R_FLAG      # noqa: E402
+
+THOROUGH = os.environ.get("VERIF_TIER") == "thorough"
+REC = {"re_attrs": {"record_interruptions": True}}
+# most scenarios: a plan that neither raises nor catches what is thrown into it, and resume / abort as the decisions at the prompt of a
+# paused engine (the plan-message scenario and the pause / stop scenario keep the defaults: every decision, plans that raise and catch)
+LEAN = dict(REC, can_raise=False, handles=False, post_pause=("resume", "abort"), max_requests=2)
+PAUSE, RESUME, SUSP = "C40:pause with a run open", "C40:resume with a run open", "C40:suspension with a run open"
+T2_SCENARIOS = [
+    # immediate and deferred pauses requested by another thread, checkpoints in between
+    ("open_run,checkpoint,null", "pause,pause_defer", dict(LEAN), [PAUSE, RESUME, "C40:deferred pause takes effect with a run open"]),
+    # pauses asked for by the plan itself (Msg('pause', defer=...)), runs opened and closed by the plan
+    ("open_run,close_run,checkpoint,pause,pause_defer", "", dict(REC), [PAUSE, RESUME]),
+    # pauses / suspensions in a non-resumable section (they end the run instead)
+    ("open_run,clear_checkpoint,checkpoint", "pause", dict(LEAN), [PAUSE, "C40:interruption in a non-resumable section with a run open"]),
+    ("open_run,clear_checkpoint,checkpoint", "suspend", dict(LEAN), [SUSP]),
+    # a device whose stop() is asynchronous: requests land inside the engine's own clean-up at a pause / a suspension / the end of the plan
+    ("open_run,set_async", "pause,suspend", dict(LEAN), [PAUSE, RESUME, SUSP]),
+    # two runs open at the same time: each holds its own records
+    ("open_run,open_run_b,checkpoint", "pause,suspend", dict(LEAN), [PAUSE, RESUME, SUSP, "C40:interruption with two runs open"]),
+    # a pause while the plan is suspended / a suspension on top of a suspension (justification given)
+    ("open_run,null", "suspend,pause", dict(LEAN, max_depth=4, suspend_plans=True), [PAUSE, RESUME, SUSP]),
+    # a deferred pause and a suspension in the same call
+    ("open_run,checkpoint,null", "pause_defer,suspend", dict(LEAN), [PAUSE, RESUME, SUSP]),
+    # a suspension requested while the engine sits paused: it is queued and carried out after resume()
+    ("open_run,checkpoint,null", "pause", dict(LEAN, paused_env="suspend"),
+     [PAUSE, RESUME, SUSP, "C40:suspension requested while paused is carried out with a run open"]),
+    # suspensions with pre / post plans and a justification; without a justification
+    ("open_run,close_run,null,checkpoint", "suspend", dict(LEAN, suspend_plans=True), [SUSP]),
+    ("open_run,null,checkpoint", "suspend", dict(REC, can_raise=False, max_requests=2), [SUSP]),
+    # a pause racing a stop request; stop / halt / abort from the paused state
+    ("open_run,checkpoint", "pause,stop", dict(REC, max_requests=2), [PAUSE, RESUME]),
+    # recording disabled
+    ("open_run,checkpoint", "pause", dict(max_requests=1), []),
+]
+if THOROUGH:
+    T2_SCENARIOS += [
+        ("open_run,checkpoint,custom", "pause,pause_defer", dict(REC, max_requests=2), [PAUSE, RESUME]),
+        ("open_run,close_run,custom,checkpoint", "suspend", dict(REC, suspend_plans=True, max_requests=2), [SUSP]),
+        ("open_run,open_run_b,close_run,checkpoint", "pause,suspend", dict(REC, max_requests=2), [PAUSE, RESUME, SUSP]),
+        ("open_run,clear_checkpoint,checkpoint,custom", "pause,suspend", dict(REC, max_requests=2), [PAUSE, SUSP]),
+        ("open_run,set_async,checkpoint", "pause,suspend", dict(REC, max_requests=2), [PAUSE, RESUME, SUSP]),
+        ("open_run,checkpoint", "pause,suspend", dict(REC, max_requests=2, max_inflight=2), [PAUSE, RESUME, SUSP]),
+        ("open_run,checkpoint,null", "pause,pause_defer", dict(LEAN, max_requests=3), [PAUSE, RESUME]),
+    ]
+for _m, _e, _o, _c in T2_SCENARIOS:
+    t2_tasks(PROP, "interruptions", [(_m, _e, _o)], [c40_checks], expect=[R_FLAG] + ([R_MISSING, R_EXTRA] if _o.get("re_attrs") else []), covers=_c)
